@@ -329,6 +329,9 @@ def handle : Handler := fun input impl =>
         | none => "running"
       let wait := if ps.all (·.done) then "ok" else "hang"
       let head := s!"res={res} canc={if o.canc then 1 else 0} lat={o.lat} wait={wait} leak=0 eng={listStr o.eng} engc={o.engc} sup={o.sup}"
+      let head := match o.blk with
+        | some b => head ++ s!" blk={b}"
+        | none => head
       let head := match o.cli with
         | some evs => head ++ s!" cli={cliPred pl.cli res evs} csig={if o.csig then 1 else 0}"
         | none => head
